@@ -161,6 +161,7 @@ struct LThread {
   std::vector<LThread*> wakeChoice;
   // step notes
   std::vector<std::string> notes;
+  std::function<bool()> gatePred; // non-empty while parked at a gate
   int noPoint = 0;
   bool dynamic = false;
 };
@@ -176,6 +177,10 @@ struct Controller::Impl {
 };
 
 static thread_local LThread* tlsMe = nullptr;
+static bool (*g_filter)(const char*) = nullptr;
+void setSiteFilter(bool (*filter)(const char* site)) {
+  g_filter = filter;
+}
 static std::atomic<Controller::Impl*> g_ctl{nullptr};
 static std::atomic<int> g_mode{-1}; // RunOptions::Mode while a run is active
 static uint64_t g_freeSeed = 1;
@@ -241,10 +246,77 @@ void point(const char* site, const void* obj) {
   LThread* me = tlsMe;
   if (!me || me->noPoint > 0)
     return;
+  if (g_filter && !g_filter(site))
+    return;
   me->site = site;
   me->obj = obj;
   me->st.store(ST_POINT, std::memory_order_release);
   waitGo(me);
+}
+
+void gate(const char* site, std::function<bool()> pred) {
+  int mode = g_mode.load(std::memory_order_acquire);
+  LThread* me = tlsMe;
+  if (mode < 0 || !me)
+    return;
+  if (mode == RunOptions::Free) {
+    while (!pred())
+      sched_yield();
+    return;
+  }
+  me->gatePred = std::move(pred);
+  me->site = site;
+  me->obj = nullptr;
+  me->st.store(ST_POINT, std::memory_order_release);
+  waitGo(me);
+  me->gatePred = nullptr;
+}
+
+void note(const char* tag, long long a, long long b) {
+  if (tlsMe) {
+    Json j;
+    j.beginArr();
+    j.str(tag);
+    j.num(a);
+    j.num(b);
+    j.endArr();
+    tlsMe->notes.push_back(j.s);
+  }
+}
+
+std::vector<WaiterInfo> futexWaiters() {
+  std::vector<WaiterInfo> out;
+  Controller::Impl* I = g_ctl.load();
+  if (!I)
+    return out;
+  std::lock_guard<std::mutex> lk(I->regMu);
+  for (auto& t : I->threads)
+    if (t->st.load() == ST_FWAIT)
+      out.push_back({t->name, t->faddr});
+  return out;
+}
+
+bool allDynamicThreadsParked() {
+  Controller::Impl* I = g_ctl.load();
+  if (!I)
+    return false;
+  std::lock_guard<std::mutex> lk(I->regMu);
+  for (auto& t : I->threads)
+    if (t->dynamic && t->st.load() != ST_DONE && t->st.load() != ST_FWAIT)
+      return false;
+  return true;
+}
+
+int liveDynamicThreads() {
+  Controller::Impl* I = g_ctl.load();
+  if (!I)
+    return 0;
+  std::lock_guard<std::mutex> lk(I->regMu);
+  int n = 0;
+  for (auto& t : I->threads)
+    if (t->dynamic && t->st.load() != ST_DONE)
+      ++n;
+  return n;
 }
 
 void ret(long long v) {
@@ -283,7 +355,20 @@ void freeEvent(Trace& tr, const char* e, const std::string& extra) {
 }
 
 Controller::Controller(Trace& trace) : impl_(new Impl(this, trace)) {}
-Controller::~Controller() {}
+Controller::~Controller() {
+  // After an incomplete run (deadlock / divergence / stuck step) logical threads are still parked:
+  // they cannot be unwound, so their bookkeeping is leaked and the threads detached.
+  bool parked = false;
+  for (auto& t : impl_->threads)
+    if (t->th.joinable())
+      parked = true;
+  if (parked) {
+    for (auto& t : impl_->threads)
+      if (t->th.joinable())
+        t->th.detach();
+    (void)impl_.release();
+  }
+}
 
 void Controller::addThread(const std::string& name, std::function<void()> body) {
   auto t = std::make_unique<LThread>();
@@ -358,9 +443,9 @@ RunResult Controller::run(const RunOptions& opts) {
   size_t schedPos = 0;
   auto findThread = [&](const std::string& n) -> LThread* {
     std::lock_guard<std::mutex> lk(I.regMu);
-    for (auto& t : I.threads)
-      if (t->name == n)
-        return t.get();
+    for (auto it = I.threads.rbegin(); it != I.threads.rend(); ++it)
+      if ((*it)->name == n)
+        return it->get();
     return nullptr;
   };
 
@@ -369,15 +454,20 @@ RunResult Controller::run(const RunOptions& opts) {
     std::vector<Cand> cands;
     bool allDone = true;
     {
-      std::lock_guard<std::mutex> lk(I.regMu);
-      for (auto& tp : I.threads) {
-        LThread* t = tp.get();
+      std::vector<LThread*> snapshot;
+      {
+        std::lock_guard<std::mutex> lk(I.regMu);
+        for (auto& tp : I.threads)
+          snapshot.push_back(tp.get());
+      }
+      for (LThread* t : snapshot) {
         int st = t->st.load(std::memory_order_acquire);
         if (st != ST_DONE)
           allDone = false;
-        if (st == ST_POINT)
-          cands.push_back({t, 0});
-        else if (st == ST_FWAIT) {
+        if (st == ST_POINT) {
+          if (!t->gatePred || t->gatePred())
+            cands.push_back({t, 0});
+        } else if (st == ST_FWAIT) {
           if (t->ftimed && opts.allowTimeout)
             cands.push_back({t, 1});
           if (opts.allowSpurious)
@@ -401,7 +491,7 @@ RunResult Controller::run(const RunOptions& opts) {
       if (anyBlocked) {
         double t0 = nowSec();
         bool progressed = false;
-        while (nowSec() - t0 < opts.watchdogSec) {
+        while (nowSec() - t0 < opts.blockedGraceSec) {
           bool any = false;
           {
             std::lock_guard<std::mutex> lk(I.regMu);
@@ -430,6 +520,18 @@ RunResult Controller::run(const RunOptions& opts) {
       Json j;
       j.beginObj();
       j.kv("e", std::string("Deadlock"));
+      j.key("threads").beginArr();
+      {
+        std::lock_guard<std::mutex> lk(I.regMu);
+        for (auto& tp : I.threads) {
+          j.beginArr();
+          j.str(tp->name);
+          j.num(tp->st.load());
+          j.str(tp->site ? tp->site : "");
+          j.endArr();
+        }
+      }
+      j.endArr();
       j.key("s").beginObj();
       if (project_)
         project_(j);
@@ -520,7 +622,15 @@ RunResult Controller::run(const RunOptions& opts) {
               chosen = c;
         }
       } else {
-        chosen = cands[splitmix(I.rng) % cands.size()];
+        // environment steps (time-outs, spurious returns) are rare unless nothing else can run
+        std::vector<Cand> steps;
+        for (auto& c : cands)
+          if (c.kind == 0)
+            steps.push_back(c);
+        if (steps.empty() || splitmix(I.rng) % 24 == 0)
+          chosen = cands[splitmix(I.rng) % cands.size()];
+        else
+          chosen = steps[splitmix(I.rng) % steps.size()];
       }
     }
 
